@@ -23,6 +23,8 @@ RULE = ("spec: TLC exhaustive over every DAG/outcome/mode of the listed configs 
 def generic(prop, quick_cfgs, thorough_cfgs, qruns=600, truns=6000, qscripts=300, tscripts=3000, sim_kw=None, extra=None):
     def check(c):
         S.tlc_spec(c, quick_cfgs if c.quick else thorough_cfgs)
+        if prop == "C19":
+            S.apalache_counters(c)
         batches = [("random", rnd(c, qruns if c.quick else truns)),
                    ("scripted", scripts(c, qscripts if c.quick else tscripts, **(sim_kw or {})))]
         for name, fn in (extra or []):
